@@ -131,12 +131,12 @@ Expected(c) ==
     LET k == c.axis
         r == NortonAxis(c.el, Nortons[c.cst][1], c.dt, c.theta, RNorm(AxisQ(c.e0, k), SDen), RNorm(AxisQ(c.de, k), SDen))
         b1 == RNorm((IF k = 1 THEN c.e0[2] + c.de[2] ELSE c.e0[1] + c.de[1]), SDen)
-    IN  [sig |-> AxisStress(c.el, k, RAdd(b1, r.db), r.q1), p |-> RAdd(c.p0, r.dp), hasp |-> TRUE, regime |-> "flow"]
+    IN  [sig |-> AxisStress(c.el, k, QAdd(b1, r.db), r.q1), p |-> QAdd(c.p0, r.dp), hasp |-> TRUE, regime |-> "flow"]
   ELSE IF c.exact = "plastic-axis" THEN
     LET k == c.axis
         pl == Plasticities[c.cst]
         r == PlasticAxis(c.el, pl[1], pl[2], c.theta, RNorm(AxisQ(c.e0, k), SDen), c.p0, RNorm(AxisQ(c.de, k), SDen))
         b1 == RNorm((IF k = 1 THEN c.e0[2] + c.de[2] ELSE c.e0[1] + c.de[1]), SDen)
-    IN  [sig |-> AxisStress(c.el, k, RAdd(b1, r.db), r.q1), p |-> RAdd(c.p0, r.dp), hasp |-> TRUE, regime |-> r.regime]
+    IN  [sig |-> AxisStress(c.el, k, QAdd(b1, r.db), r.q1), p |-> QAdd(c.p0, r.dp), hasp |-> TRUE, regime |-> r.regime]
   ELSE [sig |-> [i \in 1..6 |-> NoP], p |-> NoP, hasp |-> FALSE, regime |-> "unknown"]
 =============================================================================
